@@ -41,12 +41,27 @@ def classes(h):
         out.append('no_octopus')
     if 'dest_moved' in h.flags:
         out.append('dest_moved')
+    if 'queue_prelude' in h.flags:
+        out.append('queue_prelude')
     return out
+
+
+def prelude(data, hist):
+    # uniform histories rarely hold several queued PRs at once: in half of
+    # the queue-mode histories start with k PRs queued and a generated
+    # status matrix (same prelude as C03)
+    from hypothesis import strategies as st
+    from vf.checks import c03
+    if hist.world.mode != 'noqueue' and data.draw(st.integers(0, 1),
+                                                  label='prelude'):
+        hist.flags.add('queue_prelude')
+        c03.prelude(data, hist)
 
 
 def shard(ctx, i, acc):
     n = 10 if ctx['tier'] == 'quick' else 120
-    explore(ctx, i, acc, monitors, n, nontrivial=nontrivial, classes=classes)
+    explore(ctx, i, acc, monitors, n, nontrivial=nontrivial, classes=classes,
+            prelude=prelude, params_kw={'stab_bias': i % 2 == 1})
 
 
 def run(ctx):
